@@ -49,6 +49,8 @@ const prelude = `
 (defun call2 (t1 t2) (funcall t1) (funcall t2) 'done)
 (export 'pa 'call-thunks 'call2)
 (in-package 'user)
+(defun user-call (th) (funcall th))
+(defmacro user-mac (form) form)
 (set 'a 0)
 (set 'b 0)
 (set 'v (vector))
@@ -142,6 +144,13 @@ var templates = []template{
 	{name: "after-nested-empty-loads", render: func(es []string) string {
 		return "(load-string \"\") (funcall (lambda () (load-bytes (to-bytes \"; nothing\")) 1)) " + body(es)
 	}},
+	// the top-level form is a call of a USER-DEFINED function (every other template starts with a builtin or a special
+	// operator, whose own save/restore of the environment's context masks what happens underneath)
+	{name: "user-function-at-top", render: func(es []string) string { return "(user-call (lambda () " + body(es) + " 'done))" }},
+	{name: "user-function-at-top-nested-loads", render: func(es []string) string {
+		return "(user-call (lambda () (load-string \"\") (load-bytes (to-bytes \"1\")) (load-string \"(set 'ldv 1)\") " + body(es) + " 'done))"
+	}},
+	{name: "user-macro-at-top", render: func(es []string) string { return "(user-mac (progn (load-string \"1\") " + body(es) + " 'done))" }},
 	{name: "tail-loop", loop: true, render: func(es []string) string {
 		return fmt.Sprintf("(labels ([lp (i) (if (>= i %d) 'done (progn %s (snap) (lp (+ i 1))))]) (lp 0))", len(es), first(es))
 	}},
@@ -671,7 +680,7 @@ func run(r *core.Run) {
 	r.Bound("templates", len(templates))
 	r.Bound("effects_per_operation", seqLen)
 	r.Bound("history_depth", depth)
-	r.Rule("explicit-state BFS over histories of top-level operations on one runtime. Operation = entry point x program template (18: after nested loads of empty sources, top level, lambda call, the host builtin reached through funcall / apply / as a map callback, a multi-form function defined in another package calling thunks (also swallowed and followed by more effects), let/labels, handler-bind body, inside a handler, ignore-errors, nested load-string with in-package, macro expansion time, tail loop, dotimes, map callback, foldl callback) x effect sequence over 7 effect kinds (set, set!, defun, assoc!, append!, export, use-package) x fault. " +
+	r.Rule("explicit-state BFS over histories of top-level operations on one runtime. Operation = entry point x program template (21: a user-defined function or macro as the top-level form (with nested loads), after nested loads of empty sources, top level, lambda call, the host builtin reached through funcall / apply / as a map callback, a multi-form function defined in another package calling thunks (also swallowed and followed by more effects), let/labels, handler-bind body, inside a handler, ignore-errors, nested load-string with in-package, macro expansion time, tail loop, dotimes, map callback, foldl callback) x effect sequence over 7 effect kinds (set, set!, defun, assoc!, append!, export, use-package) x fault. " +
 		"Depth 1: the COMPLETE fault space of every operation (no fault; ordinary host error and host panic at every host-call index; step budget at every n in 1..N; cancellation at every k in 1..N; physical height limit at every h in 1..H+1). " +
 		"Depth 2: from every distinct state reached (canonical state = list of cleanly completed effects + template and fault kind of the last operation) a second operation from a reduced alphabet under every entry point with boundary faults. A state/transition is non-trivial when the operation was faulted; distinct by (history, operation)")
 	r.Assume("an effect is confirmed when the host builtin (snap) that follows it returned normally; a failed run must be equivalent to the state after c or c+1 effects (the effect completed but its snap did not)")
